@@ -265,3 +265,8 @@ CONTRACTS.append(PolarsSubsample)
 from contracts.C03_polars_container_validate import PolarsContainerValidate  # noqa: E402
 
 CONTRACTS = list(CONTRACTS) + [PolarsContainerValidate]
+
+# the Index component: its values are validated under positional labels and with the caller's head/tail/sample (IndexValidate, C04 file)
+from contracts.C04_field_validate import ArrayValidate, IndexValidate  # noqa: E402
+
+CONTRACTS = list(CONTRACTS) + [IndexValidate, ArrayValidate]
